@@ -6,6 +6,7 @@ import RsomeV.Drv.Curv
 import RsomeV.Drv.NdArray
 import RsomeV.Drv.AtomsSoc
 import RsomeV.Drv.AtomsExp
+import RsomeV.Drv.AtomsSum
 import RsomeV.Drv.IPCone
 import RsomeV.Drv.IPConeEnc
 import RsomeV.Drv.Export
@@ -50,6 +51,7 @@ def dispatch (op : String) (j : Json) : Except String Json :=
                    else if x ∈ ["G", "T", "C"] then opAtomEncodeIPC j else opAtomEncodeExp j
        | _ => opAtomEncodeExp j)
   | "atoms_exp_encode" => opAtomsExpEncode j
+  | "atom_sum_encode" => opAtomSumEncode j
   | "ipcone" => opIPCone j
   | "lp_render" => opLpRender j
   | "mix_support" => opMixSupport j
